@@ -1346,6 +1346,9 @@ void extract_subblocks(const I Ap[], const int Ap_size,
 
     // Loop over each subdomain
     for(I i = 0; i < nsdomains; i++) {
+        if (Sp[i+1] == Sp[i]) {
+            continue;  // empty subdomain
+        }
         // Calculate the smallest and largest column index for this
         // diagonal block
         I lower = Sj[Sp[i]];
